@@ -57,5 +57,21 @@ func TestSweep(t *testing.T) {
 			}
 		}
 	}
+	// many channels (beyond 64) with uneven striped slices and interleaved forms
+	for _, pr := range [][2]string{{"float64", "float64"}, {"int16", "float32"}, {"uint8", "int64"}} {
+		for _, C := range []int{63, 64, 65, 66, 100, 129} {
+			lens := make([]int, C)
+			for ch := range lens {
+				lens[ch] = 3 - ch%3 // 3,2,1,3,2,1,...
+				if ch%7 == 5 {
+					lens[ch] = -1
+				}
+			}
+			for _, kind := range []string{"writeStriped", "readStriped"} {
+				Oracle.One(t, env, rec, "sweep", &Case{S: pr[0], B: pr[1], C: C, Kr: 4, A: 1, Bf: 4, Fix: C % 3, Ops: []Op{{Kind: kind, Lens: lens, Vals: vals}}})
+			}
+			Oracle.One(t, env, rec, "sweep", &Case{S: pr[0], B: pr[1], C: C, Kr: 3, A: 0, Bf: 2, Ops: []Op{{Kind: "write", N: 2*C - 1, Vals: vals}, {Kind: "read", N: 2*C + 1}}})
+		}
+	}
 	rec.Exhaustive("169 pairs x C<=3 x root<=3(4) frames x all windows x {write,read,writeStriped,readStriped} x lengths {0,n-1,n,n+1}", true)
 }
